@@ -1,11 +1,182 @@
 package main
 
-// runWorker is the entry point for isolated child processes (C11); filled in by total.go.
-var workerMain func(payload string)
+import (
+	"bytes"
+	"encoding/json"
+	"fmt"
+	"os"
+	"os/exec"
+	"path/filepath"
+	"regexp"
+	"runtime/debug"
+	"strconv"
+	"strings"
+	"sync"
 
-func runWorker(payload string) {
-	if workerMain == nil {
-		panic("no worker registered")
+	"verif/ev"
+)
+
+// Isolated workers: cases that can kill the process (unbounded recursion is a fatal, not a
+// recoverable, error in Go; a decoder may ask for more memory than exists) run in child
+// processes. The child records which case it is on; when it dies the parent attributes the
+// death to that case, reports it and continues after it.
+
+type isoJob struct {
+	Prop     string            `json:"prop"`
+	Part     string            `json:"part"`
+	Handler  string            `json:"handler"`
+	Thorough bool              `json:"thorough"`
+	From     int               `json:"from"` // global index of Cases[0]
+	Skip     map[int]bool      `json:"skip"` // global indexes not to run (they killed a worker before)
+	Cases    []json.RawMessage `json:"cases"`
+	Dir      string            `json:"dir"`
+}
+
+var isoHandlers = map[string]func(c *Ctx, raw json.RawMessage){}
+
+const isoFlushEvery = 100
+
+func runWorker(jobFile string) {
+	debug.SetMaxStack(256 << 20) // a runaway recursion dies quickly instead of eating 1 GB
+	b, err := os.ReadFile(jobFile)
+	if err != nil {
+		fmt.Fprintln(os.Stderr, err)
+		os.Exit(2)
 	}
-	workerMain(payload)
+	var job isoJob
+	if err := json.Unmarshal(b, &job); err != nil {
+		fmt.Fprintln(os.Stderr, err)
+		os.Exit(2)
+	}
+	h := isoHandlers[job.Handler]
+	c := &Ctx{Part: ev.NewPart(job.Prop, job.Part, ""), Thorough: job.Thorough}
+	c.SetMaxSamples(0)
+	progress := filepath.Join(job.Dir, "progress")
+	flush := func(done int) {
+		c.Write(filepath.Join(job.Dir, "part.json.tmp"))
+		os.Rename(filepath.Join(job.Dir, "part.json.tmp"), filepath.Join(job.Dir, "part.json"))
+		os.WriteFile(filepath.Join(job.Dir, "flushed"), []byte(strconv.Itoa(done)), 0o644)
+	}
+	for i, raw := range job.Cases {
+		g := job.From + i
+		if job.Skip[g] {
+			continue
+		}
+		os.WriteFile(progress, []byte(strconv.Itoa(g)), 0o644)
+		h(c, raw)
+		if (i+1)%isoFlushEvery == 0 {
+			flush(g)
+		}
+	}
+	flush(job.From + len(job.Cases) - 1)
+	os.WriteFile(filepath.Join(job.Dir, "complete"), []byte("1"), 0o644)
+}
+
+var fatalRe = regexp.MustCompile(`(?m)^fatal error: (.*)$`)
+
+// runIsolated runs every case through handler in child processes (nproc at a time, the cases
+// split into contiguous shards) and merges their parts into c. describe names a case in
+// messages; class gives the signature class of a case (for fatal errors).
+func runIsolated(c *Ctx, handler string, cases []interface{}, class func(i int) string, memLimitMB int) {
+	raws := make([]json.RawMessage, len(cases))
+	for i, x := range cases {
+		b, err := json.Marshal(x)
+		if err != nil {
+			panic(err)
+		}
+		raws[i] = b
+	}
+	self, _ := os.Executable()
+	base, _ := os.MkdirTemp("/verif/.build", "iso")
+	defer os.RemoveAll(base)
+	nsh := 16
+	if len(raws) < nsh*4 {
+		nsh = (len(raws) + 3) / 4
+	}
+	if nsh < 1 {
+		nsh = 1
+	}
+	per := (len(raws) + nsh - 1) / nsh
+	var mu sync.Mutex
+	var wg sync.WaitGroup
+	for s := 0; s < nsh; s++ {
+		lo, hi := s*per, (s+1)*per
+		if hi > len(raws) {
+			hi = len(raws)
+		}
+		if lo >= hi {
+			continue
+		}
+		wg.Add(1)
+		go func(s, lo, hi int) {
+			defer wg.Done()
+			from := lo
+			skip := map[int]bool{}
+			for attempt := 0; from < hi && attempt < 200; attempt++ {
+				dir := filepath.Join(base, fmt.Sprintf("s%d-%d", s, attempt))
+				os.MkdirAll(dir, 0o755)
+				job := isoJob{Prop: c.Property, Part: c.Part.Part, Handler: handler, Thorough: c.Thorough, From: from, Skip: skip, Cases: raws[from:hi], Dir: dir}
+				jb, _ := json.Marshal(job)
+				jf := filepath.Join(dir, "job.json")
+				os.WriteFile(jf, jb, 0o644)
+				cmdline := fmt.Sprintf("ulimit -v %d; exec %q -worker %q", memLimitMB*1024, self, jf)
+				cmd := exec.Command("/bin/sh", "-c", cmdline)
+				var stderr bytes.Buffer
+				cmd.Stderr = &stderr
+				cmd.Env = append(os.Environ(), "GOMAXPROCS=2")
+				err := cmd.Run()
+				if p, perr := ev.ReadPart(filepath.Join(dir, "part.json")); perr == nil {
+					mu.Lock()
+					c.Merge(p)
+					mu.Unlock()
+				}
+				if _, cerr := os.Stat(filepath.Join(dir, "complete")); cerr == nil && err == nil {
+					os.RemoveAll(dir)
+					return
+				}
+				// the worker died
+				at := from
+				if b, e := os.ReadFile(filepath.Join(dir, "progress")); e == nil {
+					at, _ = strconv.Atoi(string(b))
+				}
+				flushed := from - 1
+				if b, e := os.ReadFile(filepath.Join(dir, "flushed")); e == nil {
+					flushed, _ = strconv.Atoi(string(b))
+				}
+				reason := "worker died: " + fmt.Sprint(err)
+				kind := "fatal"
+				if m := fatalRe.FindStringSubmatch(stderr.String()); m != nil {
+					reason = "fatal error: " + m[1]
+					kind = "fatal:" + strings.ReplaceAll(strings.TrimSpace(m[1]), " ", "_")
+				}
+				site := fatalSite(stderr.String())
+				mu.Lock()
+				if strings.Contains(kind, "out_of_memory") || strings.Contains(kind, "cannot_allocate") {
+					// asking for more memory than the harness limit is counted, not judged
+					c.AddCount("over_memory_limit", 1)
+				} else {
+					c.Violate(class(at)+":"+kind+":"+site, fmt.Sprintf("%s\nin %s\ncase %s", reason, site, clipStr(string(raws[at]))), json.RawMessage(raws[at]))
+				}
+				mu.Unlock()
+				skip[at] = true
+				from = flushed + 1
+				os.RemoveAll(dir)
+			}
+		}(s, lo, hi)
+	}
+	wg.Wait()
+}
+
+// fatalSite extracts the innermost library frame from a Go fatal-error dump.
+func fatalSite(dump string) string {
+	for _, l := range strings.Split(dump, "\n") {
+		if strings.HasPrefix(l, "github.com/biogo/hts/") {
+			f := strings.TrimPrefix(l, "github.com/biogo/hts/")
+			if i := strings.LastIndex(f, "("); i > 0 {
+				f = f[:i]
+			}
+			return f
+		}
+	}
+	return "unknown"
 }
